@@ -534,4 +534,46 @@ theorem onColumn_protect_struct_in_text (c : CryptoOps) (hs : SealLaws c) (hsl :
   rw [h, hsc]
   simp [ScanOut.prepend]
 
+/-! ## the empty value -/
+
+/-- The empty byte string is not a protected value for any handler … -/
+theorem empty_not_protected (k : Kind) : matchKind k [] = false ∧ registryMatch [] = false := by
+  cases k <;> exact ⟨by decide, by decide⟩
+
+/-- … and it cannot be protected: `protect` returns an error (no panic, no output) for the empty
+value, for both envelope kinds, any keys and any random stream. The code relies on Themis rejecting
+empty messages; in the model this is the `m = []` case of `SealLaws.enc_none`, the only law needed
+(for the AcraStruct the symmetric key may or may not get wrapped first – the seal of the empty
+message fails either way). -/
+theorem protect_empty_err (c : CryptoOps) (hs : SealLaws c) (kv : KeyView) (k : Kind) (rnd : Bytes) :
+    protect c kv k [] rnd = .err := by
+  obtain ⟨h1, h2⟩ := empty_not_protected k
+  have henc : ∀ key ctx n, c.enc key ctx [] n = none := fun key ctx n =>
+    (hs.enc_none key ctx [] n).mpr (Or.inl rfl)
+  unfold protect
+  rw [h1, h2]
+  simp only [Bool.or_self, Bool.false_eq_true, if_false]
+  unfold encryptKind
+  rw [h1]
+  simp only [Bool.false_eq_true, if_false]
+  cases k with
+  | struct =>
+    simp only
+    cases kv.pub with
+    | none => rfl
+    | some pub =>
+      simp only
+      unfold createStruct
+      simp only [henc]
+      cases c.wrap (c.privOfSeed (rnd.take 32)) pub ((rnd.drop 32).take 32) ((rnd.drop 64).take 12) <;> rfl
+  | block =>
+    simp only
+    cases kv.sym with
+    | none => rfl
+    | some key =>
+      simp only
+      unfold createBlock
+      simp only [henc]
+      rfl
+
 end AcraModel.Props.C01
